@@ -50,6 +50,13 @@ type memRepo struct {
 	faultKey     string
 	// faultFired: an injected fault fired since the harness last cleared the flag
 	faultFired bool
+	// skipLiveListFault: the quiescence marker's handler is running (its Get was just seen); the List
+	// of the registrations it does next is not subject to the list fault
+	skipLiveListFault bool
+	// watchers: the channel the real discovery loop of the running master reads for each watched
+	// prefix (the harness plays etcd: it sends the watch events it wants delivered)
+	wmu      sync.Mutex
+	watchers map[string]chan *state.Event
 	// stall != nil: a Put on /storage/state waits until the channel is closed (slow repository);
 	// stalled is signalled when a Put starts waiting
 	stall   chan struct{}
@@ -65,6 +72,9 @@ var errInjectedGet = fmt.Errorf("verif: injected repository read failure (reques
 func (r *memRepo) Get(_ context.Context, key string) ([]byte, error) {
 	r.mu.Lock()
 	defer r.mu.Unlock()
+	if key == markerAsgKey {
+		r.skipLiveListFault = true
+	}
 	if key == r.sentinelKey && r.sentinelSeen != nil {
 		select {
 		case r.sentinelSeen <- struct{}{}:
@@ -86,6 +96,10 @@ func (r *memRepo) Get(_ context.Context, key string) ([]byte, error) {
 func (r *memRepo) List(_ context.Context, prefix string) ([]state.KeyValue, error) {
 	r.mu.Lock()
 	defer r.mu.Unlock()
+	if prefix == constants.StorageLiveNodesPath && r.skipLiveListFault {
+		r.skipLiveListFault = false
+		return r.listLocked(prefix), nil
+	}
 	if r.failLiveList && prefix == constants.StorageLiveNodesPath {
 		r.failLiveList = false
 		r.faultFired = true
@@ -149,15 +163,50 @@ func (r *memRepo) Delete(_ context.Context, key string) error {
 }
 func (r *memRepo) Close() error { return nil }
 
-// WatchPrefix: the harness plays the watches itself (it hands the events to the manager), so the
-// channel the real discovery loop reads from never carries anything; it is closed with the context.
-func (r *memRepo) WatchPrefix(ctx context.Context, _ string, _ bool) state.WatchEventChan {
+// WatchPrefix: the harness plays etcd's watches. The channel the real discovery loop reads from is
+// kept per prefix; in "watched" regions the harness sends its events into it (so they travel
+// discovery loop -> state machine listener -> StateMachineFactory callback -> EmitEvent), otherwise
+// it hands events to the manager directly and the channel stays silent. Closed with the context.
+func (r *memRepo) WatchPrefix(ctx context.Context, prefix string, _ bool) state.WatchEventChan {
 	ch := make(chan *state.Event)
+	r.wmu.Lock()
+	if r.watchers == nil {
+		r.watchers = map[string]chan *state.Event{}
+	}
+	r.watchers[prefix] = ch
+	r.wmu.Unlock()
 	go func() {
 		<-ctx.Done()
+		r.wmu.Lock()
+		if r.watchers[prefix] == ch {
+			delete(r.watchers, prefix)
+		}
 		close(ch)
+		r.wmu.Unlock()
 	}()
 	return ch
+}
+
+var errWatchBarrier = fmt.Errorf("verif: watch barrier")
+
+// watchSend delivers one watch event through the discovery loop of the running master. The second
+// send (an event carrying an error, which the loop skips) returns only after the loop has come back
+// from handling the first one, i.e. after the listener's EmitEvent call has returned.
+func (r *memRepo) watchSend(prefix string, ev *state.Event) bool {
+	r.wmu.Lock()
+	ch := r.watchers[prefix]
+	r.wmu.Unlock()
+	if ch == nil {
+		return false
+	}
+	for _, e := range []*state.Event{ev, {Err: errWatchBarrier}} {
+		select {
+		case ch <- e:
+		case <-time.After(5 * time.Second):
+			return false
+		}
+	}
+	return true
 }
 
 // harness-side access (same lock)
@@ -428,6 +477,42 @@ type machine struct {
 	nodePending []nodeEv
 	// cfgSeq counts handled config events (to tell node events that were overtaken by one)
 	cfgSeq int
+	// watched: single events are delivered through the running master's real watch path (only a
+	// master that took over has state machines; the first master of a case is fed directly)
+	watched bool
+}
+
+// viaWatch delivers ev through discovery loop -> state machine -> factory callback -> EmitEvent ->
+// consumeEvent and waits until the manager has handled it. false: not applicable (fed directly).
+func (m *machine) viaWatch(c *core.Ctx, ev *discovery.Event) bool {
+	if !m.watched || m.fct == nil {
+		return false
+	}
+	var prefix string
+	typ := state.EventTypeModify
+	switch ev.Type {
+	case discovery.NodeStartup:
+		prefix = constants.StorageLiveNodesPath
+	case discovery.NodeFailure:
+		prefix, typ = constants.StorageLiveNodesPath, state.EventTypeDelete
+	case discovery.DatabaseConfigChanged:
+		prefix = constants.DatabaseConfigPath
+	case discovery.DatabaseConfigDeletion:
+		prefix, typ = constants.DatabaseConfigPath, state.EventTypeDelete
+	case discovery.ShardAssignmentChanged:
+		prefix = constants.ShardAssignmentPath
+	default:
+		return false
+	}
+	if !m.repo.watchSend(prefix, &state.Event{Type: typ, KeyValues: []state.EventKeyValue{{Key: ev.Key, Value: ev.Value}}}) {
+		c.Fail("watch-delivery-timeout", fmt.Sprintf("%s %s", ev.Type.String(), ev.Key))
+		return true
+	}
+	if !m.quiesce() {
+		c.Fail("watch-quiescence-timeout", fmt.Sprintf("%s %s", ev.Type.String(), ev.Key))
+	}
+	c.Branch("ev-delivered-through-watch-" + ev.Type.String())
+	return true
 }
 
 type nodeEv struct {
@@ -681,7 +766,9 @@ func (m *machine) event(c *core.Ctx, op string, ev *discovery.Event, publishes b
 	m.repo.faultFired = false
 	m.repo.mu.Unlock()
 	c.Guard(op, func() string {
-		master.VerifProcessEvent(m.mgr, ev)
+		if !m.viaWatch(c, ev) {
+			master.VerifProcessEvent(m.mgr, ev)
+		}
 		return m.dump()
 	})
 	m.oracle(c, op)
@@ -797,6 +884,13 @@ var scripts = [][]evStep{
 		{"getfail", 0, 0, 0, nil}, {"putfail", 1, 0, 0, nil}, {"cfg", 1, 1, 0, nil}, {"deliver", 1, 0, 0, nil}, {"cfg", 1, 1, 0, nil},
 		{"badcfg", 0, 0, 0, nil}, {"badcfg", 1, 0, 0, nil}, {"badcfg", 2, 0, 0, nil}, {"badnode", 0, 0, 0, nil}, {"badnode", 1, 0, 0, nil},
 		{"cfgshrink", 0, 1, 0, nil}, {"cfg", 0, 0, 0, nil}, {"cfg", 0, 2, 0, nil}, {kind: "failover"}, {"cfgshrink", 1, 0, 0, nil}, {kind: "failover"}, {"cfg", 1, 3, 0, nil}},
+	// 13: a master started through StateMachineFactory.Start on an empty repository; every event then travels the real
+	// watch path (discovery loop -> state machine listener -> factory callback -> EmitEvent -> consumeEvent)
+	{{kind: "failover"}, {"watchmode", 1, 0, 0, nil}, {"up", 1, 0, 0, nil}, {"up", 2, 0, 0, nil}, {"up", 3, 0, 0, nil}, {"cfg", 0, 4, 2, nil}, {"down", 1, 0, 0, nil},
+		{"cfgq", 1, 3, 1, nil}, {"down", 2, 0, 0, nil}, {"deliver", 1, 0, 0, nil}, {"up", 1, 0, 0, nil}, {"cfg", 0, 2, 0, nil}, {"crash", 3, 0, 0, nil}, {"cfg", 2, 2, 1, nil},
+		{"delivernode", 0, 0, 0, nil}, {"drop", 1, 0, 0, nil}, {"dup", 1, 0, 0, nil}, {"down", 1, 0, 0, nil}, {"down", 9, 0, 0, nil}, {"up", 2, 0, 0, nil}, {"up", 2, 0, 0, nil},
+		{"getfail", 0, 0, 0, nil}, {"cfg", 0, 1, 0, nil}, {"statefail", 0, 0, 0, nil}, {"down", 2, 0, 0, nil}, {"up", 3, 0, 0, nil},
+		{kind: "failover", burst: []evStep{{"down", 3, 0, 0, nil}}}, {"up", 1, 0, 0, nil}, {"cfg", 0, 1, 0, nil}, {"drop", 2, 0, 0, nil}, {"down", 1, 0, 0, nil}},
 }
 
 func machineCase(c *core.Ctx, r *rand.Rand) {
@@ -855,6 +949,10 @@ func machineCase(c *core.Ctx, r *rand.Rand) {
 		return cand[r.Intn(len(cand))]
 	}
 	var evs []evStep
+	if failovers && r.Intn(2) == 0 { // the master is started through Start (empty repository); events travel the real watch path
+		evs = append(evs, evStep{kind: "failover"}, evStep{"watchmode", 1, 0, 0, nil})
+		c.Branch("case-watched-delivery")
+	}
 	pend := map[int]int{} // rough count of undelivered payloads per database (bias only)
 	if r.Intn(5) != 0 {   // mostly: a cluster that is (partly) up before the churn starts
 		for id := 0; id < nNodes; id++ {
@@ -1208,6 +1306,9 @@ func machineRun(c *core.Ctx, _ *rand.Rand, evs []evStep) {
 				c.Branch("ev-delivernode-nothing-pending")
 			}
 			m.deliverNode(c, 1)
+		case "watchmode":
+			m.watched = e.a != 0
+			c.Branch("ev-watchmode")
 		case "getfail":
 			repo.mu.Lock()
 			repo.failAsgGet = true
